@@ -102,7 +102,7 @@ followed by its `const (…)` block -/
 def goDefs (U : UnicodeOps) (cfg : Go.Cfg) : RustItem → Outcome (List (Str × Str))
   | .struct s => (Go.acr U cfg s.id.renamed).bind fun n => .ok [(s%"type ", n)]
   | .alias a => (Go.acr U cfg a.id.renamed).bind fun n => .ok [(s%"type ", n)]   -- (`id.original` before 0c924cd)
-  | .const c => .ok [(s%"const ", Rename.toPascal c.id.renamed)]
+  | .const c => .ok [(s%"const ", Rename.toPascal U c.id.renamed)]
   | .enum e =>
     (Outcome.mapM' (fun (p : Id × List RustField) =>
         (Go.acr U cfg (e.id.original ++ p.1.original ++ s%"Inner")).bind (Go.acr U cfg))
@@ -113,7 +113,7 @@ def goDefs (U : UnicodeOps) (cfg : Go.Cfg) : RustItem → Outcome (List (Str × 
     | some (tag, _) =>
       (Go.acr U cfg tag).bind fun t =>
         .ok (inner.map (fun i => (s%"type ", i)) ++
-             [(s%"type ", n ++ Rename.toPascal t ++ s%"s"), (s%"type ", n)])
+             [(s%"type ", n ++ Rename.toPascal U t ++ s%"s"), (s%"type ", n)])
 
 /-- Python: aliases, unions and constants are plain assignments (empty keyword); an algebraic enum
 defines the helper classes of its struct variants, the `<Name>Types` enumeration of its tags, one
